@@ -266,6 +266,23 @@ func (w *walker) check(when string, checkPending bool, everCanonical map[string]
 			w.fail("C05:height-index:cached-lookup-disagrees", fmt.Sprintf("%s: GetBlockHash(%d)=%s, canonical %s", when, h, gotCached.Hex(), wantHash.Hex()))
 		}
 	}
+	// 2b. nothing above the head is indexed — by hash either: a block of the delivered tree that is
+	// not on the canonical chain and lies above the head must not be in the hash index (a stored block
+	// answers BlockExisted on redelivery, so the node could never follow that branch again)
+	canonSet := map[common.Hash]bool{}
+	for _, h := range canon {
+		canonSet[h.Hash] = true
+	}
+	for _, b := range w.t.byName {
+		bh := common.HexToHash(b.Hash)
+		if canonSet[bh] || b.Height <= head.Height {
+			continue
+		}
+		w.r.Count("hash_index_above_head_probes", 1)
+		if chain.HasBlockByHash(bh) || chain.QueryBlockByHash(bh) != nil {
+			w.fail("C05:hash-index:entry-above-head", fmt.Sprintf("%s: block %s (height %d) is in the hash index although it is not on the canonical chain and lies above head height %d", when, b.Name, b.Height, head.Height))
+		}
+	}
 	// 3. head state openable
 	st, err := middleware.AccountDBManagerInstance.GetAccountDBByHash(head.StateTree)
 	if err != nil || st == nil {
